@@ -3111,12 +3111,14 @@ func (o *OperandOrDeferredTransfer) Decode(decoder *Decoder) error {
 	isDeferredTransfer := firstByte == 1
 	if isOperand {
 		cLog(Cyan, "OperandOrDeferredTransfer is Operand")
+		o.Operand, o.DeferredTransfer = &Operand{}, nil
 		if err = o.Operand.Decode(decoder); err != nil {
 			return err
 		}
 		return nil
 	} else if isDeferredTransfer {
 		cLog(Cyan, "OperandOrDeferredTransfer is DeferredTransfer")
+		o.Operand, o.DeferredTransfer = nil, &DeferredTransfer{}
 		if err = o.DeferredTransfer.Decode(decoder); err != nil {
 			return err
 		}
